@@ -1008,12 +1008,18 @@ class ToggleSignal:
 
                 @concurrent_context
                 def logic():
-                    sum = Value[CounterType](cnt_first) + Value[CounterType](cnt_second)
-                    assert sum != 0, "counter end was set to 0"
-
                     # cast cnt_first and cnt_second to CounterType
                     # to avoid unsigned overflow
-                    counter_end.next = sum - 1
+                    first_cnt = Value[CounterType](cnt_first)
+                    second_cnt = Value[CounterType](cnt_second)
+
+                    # the sum itself can wrap to zero for the largest legal
+                    # period (first + second == 2**width), check the operands instead
+                    assert (first_cnt != 0) or (
+                        second_cnt != 0
+                    ), "counter end was set to 0"
+
+                    counter_end.next = first_cnt + second_cnt - 1
 
             else:
                 counter_end = cnt_first + cnt_second - 1
